@@ -24,8 +24,10 @@ def add(pid, category, text, note, technique, qt=900, tt=2400, design="4"):
 
 
 add("C06", "exploration",
-    "Seeded search over hash seeds x --threads x task-to-worker placements/completion orders (SimPool) x memory mode x "
-    "keep_tmp x buffer sizes; every execution runs the real pipeline in real forked processes and is compared byte-wise "
+    "Seeded search over hash seeds (0-7) x --threads (1-16) x task-to-worker placements (policy 'placed' realises random "
+    "placements; also serial/spread/pile/rr/pct/random interleavings) x memory mode x keep_tmp x buffer sizes, on workloads with "
+    "read groups, cross-chromosome multi-mappers, tied intergenic multi-mappers, genes sharing introns, a long split locus and "
+    "1-2 experiments; every execution runs the real pipeline in real forked processes and is compared byte-wise "
     "(after header normalisation) with the reference execution of the same workload. Sampling, not proof.",
     "Trusted: SimPool as a model of ProcessPoolExecutor.map under fork (fidelity self-test compares against the real pool); "
     "inputs come from the seeded workload generator (several chromosomes, read groups, multi-mappers, 1-2 experiments).",
@@ -57,8 +59,10 @@ add("C03", "exploration", _SWEEP_TEXT + "Oracle: GTF structure (exons sorted, di
     " Weakest simulation case: only 'reported, and reported once' depends on history/placement; coordinate clauses are by-products.",
     "deterministic simulation sweep (schedules, hash seeds, multi-experiment history, crash+resume) + GTF structure oracle")
 add("C05", "exploration", _SWEEP_TEXT + "Oracle: the set of reported read ids equals the generator's set of reads with a mapped, "
-    "non-supplementary MAPQ-60 record (both memory back-ends), no identical records, log statistics = input record counts.",
-    _SWEEP_NOTE + " Deep (>1024 reads / >32 kb) loci are not generated in quick runs.",
+    "non-supplementary MAPQ-60 record (both memory back-ends), no identical records, log statistics = input record counts; half of "
+    "the workloads contain a > 64 kb read island that IsoQuant splits at a coverage valley (a read straddling the split with a "
+    "losing upstream secondary, short leading/tail reads, a small island ending in the bin where the long one starts).",
+    _SWEEP_NOTE + " Loci with >= 1024 reads are not generated (length, not depth, triggers the split in these workloads).",
     "deterministic simulation sweep (placement, memory back-end, crash+resume) + read-accounting oracle against generator ground truth")
 add("C09", "exploration", _SWEEP_TEXT + "Oracle: run does not abort on ungroupable reads, matrix == linear triples, groups sum to the "
     "ungrouped value, every (feature, group) cell equals the documented weighting of the reads whose ground-truth group it is; "
@@ -79,7 +83,7 @@ add("C10", "exploration",
 add("C20", "exploration",
     "Seeded search over interleavings of 2-4 complete concurrent IsoQuant invocations under one HOME: every exists/open/"
     "truncate/flush/getmtime/makedirs/rename on the shared cache directory and every sqlite connect/commit/unlink on *.db is a "
-    "pre-emption point decided by the scheduler (PCT, starvation windows, random, round robin); families: same GTF, different "
+    "pre-emption point decided by the scheduler (PCT, starvation windows, yield-after-mutation, random, round robin); families: same GTF, different "
     "GTFs, same basename in different folders, gz / --complete_genedb mixes, adopt-while-owner-rebuilds after a pre-history. "
     "Judged per actor: exit 0, outputs equal the same invocation alone, database used = conversion of its own annotation, cache "
     "files well-formed.",
@@ -95,7 +99,8 @@ add("C12", "exploration",
     "with logical mtimes - after every run the database actually used must be a fresh conversion of the current annotation with "
     "the current flags; (R) one workload as .gtf/.gtf.gz/.db x --complete_genedb under varying threads/schedules: outputs "
     "byte-identical; (P) the same reads dealt into 1..4 BAM files in permuted order: assignments, BED and ungrouped tables equal "
-    "as multisets.",
+    "as multisets; plus directed stale-cache histories (two annotations with one file name competing for an output folder) "
+    "and a merger machine that deals sorted record streams into 1-5 files and checks the real BAMOnlineMerger output.",
     "Trusted: logical mtimes (content change => mtime change), harness-side fresh conversions with real gffutils; all "
     "representations of one workload run under one hash seed (hash-seed effects belong to C06).",
     "deterministic simulation of cache histories (sequential actors, logical clock) + golden equality across representations/partitions")
